@@ -15,3 +15,30 @@ pub fn skip_for_replay(run: &RunInfo, prefix: &str) -> bool {
         None => false,
     }
 }
+
+
+/// A `log` sink that formats every record (so that the arguments of every logging statement on the
+/// paths explored are evaluated, as they are in a deployment with a logger installed) and discards
+/// the text. Installed once per process; switched on and off with the global level filter.
+struct EvalLogger;
+impl log::Log for EvalLogger {
+    fn enabled(&self, _m: &log::Metadata) -> bool {
+        true
+    }
+    fn log(&self, r: &log::Record) {
+        use std::fmt::Write;
+        thread_local! { static SINK: std::cell::RefCell<String> = std::cell::RefCell::new(String::new()); }
+        SINK.with(|s| {
+            if let Ok(mut s) = s.try_borrow_mut() {
+                s.clear();
+                let _ = write!(s, "{}", r.args());
+            }
+        });
+    }
+    fn flush(&self) {}
+}
+static EVAL_LOGGER: EvalLogger = EvalLogger;
+pub fn logging(on: bool) {
+    let _ = log::set_logger(&EVAL_LOGGER);
+    log::set_max_level(if on { log::LevelFilter::Trace } else { log::LevelFilter::Off });
+}
